@@ -42,6 +42,8 @@ def selftest(ck, name, rejected):
 
 TOL32 = 5e-4      # mass-space comparisons, relative to the history's trace, float32 code paths
 TOL64 = 1e-9      # the same under jax_enable_x64 with float64 state
+TOL64_TF_INV = 1e-5  # Sketchy keeps its exponent `alpha` in float32 even under x64: the stored inverse
+                     # roots are then only float32-accurate (measured 9.5e-8)
 VTOL = 300        # measured margins, units of tr(C) / 1e6
 KNOWN_MIXED = "ds|fd|mixed_sizes|sketch_lost_by_truncation"
 
@@ -122,6 +124,9 @@ def direct_jobs(ck, behs, impl, x64):
       if part:
         jobs.append({"impl": impl, "behs": part, "seed": ck.seed * 7919 + len(jobs), "var": var,
                      "tol": TOL64 if x64 else TOL32})
+  if impl == "tf" and x64:
+    for j in jobs:
+      j["var"] = dict(j["var"], tol_inv=TOL64_TF_INV)
   return jobs
 
 
@@ -135,6 +140,8 @@ def judge(ck, jobs, res, label, mode, stats):
           stats["flag_checked"] = stats.get("flag_checked", 0) + v
           continue
         tol = 1e-4 if k == "orth" else 0.0 if k == "nonneg" else j["tol"] * (100 if k == "applied" else 1)
+        if k in ("inv_arg", "inv_tail_arg") and j["var"].get("tol_inv"):
+          tol = j["var"]["tol_inv"]
         ck.calib(f"{j['impl']}.{mode}.{k}", v, tol)
       if x["bad"]:
         nbad += 1
